@@ -1,8 +1,10 @@
 # sha_ref.py - offline checker for C17: recomputes every recorded digest / MAC with hashlib / hmac (stdlib) and compares.
 # Record lines written by harness/h_sha.cpp:
 #   H <msg hex> <digest hex>        P <s> <len> <digest hex>        M <key hex> <msg hex> <mac hex>        N <ks> <klen> <ms> <mlen> <mac hex>        V <name> <hex>
+#   Q <case> <how> <s> <len> <digest hex>      K <case> <s> <klen> <len> <mac hex>      huge messages (>= 2^29 bytes): one 2^20-byte splitmix64 block repeated
 #   A <class> <key hex> <msg hex> <mac hex>    G <class> <msg hex> <digest hex>     results of calls whose result buffer overlapped an input buffer (inputs as before the call)
-import hashlib, hmac, os
+import hashlib, hmac, os, struct
+from concurrent.futures import ThreadPoolExecutor
 from . import core
 from .core import HarnessFailure
 
@@ -72,6 +74,48 @@ def pattern_digest(s, n):
     return h.hexdigest()
 
 
+_M64 = (1 << 64) - 1
+_huge_blocks = {}
+
+
+def huge_block(s):
+    """2^20 bytes: little-endian splitmix64 outputs, state starting at s * 0x9e3779b97f4a7c15 + 0x632be59bd9b4e019 (harness: hugeBlock)"""
+    blk = _huge_blocks.get(s)
+    if blk is None:
+        x = (s * 0x9e3779b97f4a7c15 + 0x632be59bd9b4e019) & _M64
+        out = []
+        for _ in range((1 << 20) // 8):
+            x = (x + 0x9e3779b97f4a7c15) & _M64
+            z = x
+            z = ((z ^ (z >> 30)) * 0xbf58476d1ce4e5b9) & _M64
+            z = ((z ^ (z >> 27)) * 0x94d049bb133111eb) & _M64
+            out.append(z ^ (z >> 31))
+        blk = struct.pack('<%dQ' % len(out), *out)
+        _huge_blocks[s] = blk
+    return blk
+
+
+def huge_feed(h, s, n):
+    """h.update over the huge message big(s)[0..n): the block repeated (hashlib releases the GIL for large updates, so several of these run in parallel)"""
+    blk = huge_block(s)
+    big = blk * 16
+    left = n
+    while left >= len(big):
+        h.update(big)
+        left -= len(big)
+    while left >= len(blk):
+        h.update(blk)
+        left -= len(blk)
+    h.update(blk[:left])
+    return h.hexdigest()
+
+
+def huge_class(hashed):
+    """by the most significant bit of the BIT length of what one hasher consumed (harness: hugeClass)"""
+    msb = (hashed << 3).bit_length() - 1
+    return 'bits<2^32' if msb < 32 else 'bits>=2^%d' % msb
+
+
 def len_class(n):
     m = n % 64
     pad = '0' if m == 0 else '1..54' if m < 55 else '55' if m == 55 else '56' if m == 56 else '57..62' if m < 63 else '63'
@@ -87,6 +131,7 @@ def post(ctx):
     self_check()
     stats = ctx.extra_cov.setdefault('_stats', {})
     n_h = n_p = n_m = n_v = n_a = 0
+    huge = []   # (line, fields): recomputed in parallel after the scan
     seen_vectors = set()
     bad = {}   # key -> (text, msg)
 
@@ -143,6 +188,10 @@ def post(ctx):
                             if want != f_[3]:
                                 report('Sha256.hash/%s/digest-differs-from-FIPS-180-4' % f_[1], line,
                                        'result buffer inside the data buffer; message of %d bytes (as before the call): library digest %s, hashlib %s' % (len(msg), f_[3], want))
+                        elif f_[0] == 'Q' and len(f_) == 6 and f_[2] in ('chunked', 'one-shot'):
+                            huge.append((line, ('Q', int(f_[1]), f_[2], int(f_[3]), int(f_[4]), f_[5])))
+                        elif f_[0] == 'K' and len(f_) == 6:
+                            huge.append((line, ('K', int(f_[1]), int(f_[2]), int(f_[3]), int(f_[4]), f_[5])))
                         elif f_[0] == 'V' and len(f_) == 3:
                             if f_[1] not in VECTORS:
                                 raise HarnessFailure('sha_ref: unknown vector name %s in %s' % (f_[1], path))
@@ -156,14 +205,46 @@ def post(ctx):
                             raise HarnessFailure('sha_ref: malformed record %s:%d: %.80s' % (path, ln, line))
                     except ValueError as e:
                         raise HarnessFailure('sha_ref: malformed record %s:%d (%s)' % (path, ln, e))
+    # huge messages: hashlib / hmac over the same repeated block
+    def huge_ref(item):
+        f = item[1]
+        if f[0] == 'Q':
+            return huge_feed(hashlib.sha256(), f[3], f[4])
+        return huge_feed(hmac.new(huge_block(f[2] ^ 0x5bd1e995)[:f[3]], digestmod=hashlib.sha256), f[2], f[4])
+    for _, f in huge:   # the blocks once, single-threaded (pure Python)
+        huge_block(f[3] if f[0] == 'Q' else f[2])
+    huge_classes = set()
+    if huge:
+        with ThreadPoolExecutor(min(8, len(huge))) as pool:
+            wants = list(pool.map(huge_ref, huge))
+        for (line, f), want in zip(huge, wants):
+            if f[0] == 'Q':
+                _, case, how, s, n, got = f
+                cls = huge_class(n)
+                if want != got:
+                    report('Sha256.%s/huge-message/%s/digest-differs-from-FIPS-180-4' % ('update' if how == 'chunked' else 'hash', cls), line,
+                           'huge message (2^20-byte block of seed %d repeated) of %d bytes, %s: library digest %s, hashlib %s; re-run: --mode huge --start %d --cases 1 with the seed of this run'
+                           % (s, n, 'fed in many update() calls' if how == 'chunked' else 'one Sha256::hash() call', got, want, case))
+            else:
+                _, case, s, kl, n, got = f
+                cls = huge_class(n + 64)
+                if want != got:
+                    report('Sha256.hmac/huge-message/%s/mac-differs-from-RFC-2104' % cls, line,
+                           'key of %d bytes, huge message (2^20-byte block of seed %d repeated) of %d bytes: library MAC %s, hmac module %s; re-run: --mode huge --start %d --cases 1 with the seed of this run'
+                           % (kl, s, n, got, want, case))
+            huge_classes.add(cls)
     for key, (line, msg) in sorted(bad.items()):
         name = '%s.offline.%s.txt' % (ctx.prop, ''.join(c if c.isalnum() else '_' for c in key)[:80])
-        rp = core.write_replay(name, 'key=%s\nmsg=%s\nchecker=vlib/sha_ref.py (hashlib/hmac)\nrecord (H msg digest | P s len digest | M key msg mac | V name value | A class key msg mac | G class msg digest):\n%s\n' % (key, msg, line[:20000]))
+        rp = core.write_replay(name, 'key=%s\nmsg=%s\nchecker=vlib/sha_ref.py (hashlib/hmac)\nrecord (H msg digest | P s len digest | M key msg mac | V name value | A class key msg mac | G class msg digest | Q case how blockseed len digest | K case blockseed keylen len mac):\n%s\n' % (key, msg, line[:20000]))
         ctx.violations.append((key, rp, msg))
     stats['offline_digests_compared'] = n_h + n_p
     stats['offline_long_pattern_digests'] = n_p
     stats['offline_macs_compared'] = n_m
     stats['offline_vectors_compared'] = n_v
+    stats['offline_huge_results_compared'] = len(huge)
+    stats['offline_huge_results_of_2p29_bytes_or_more'] = sum(1 for _, f in huge if (f[4] + (64 if f[0] == 'K' else 0)) >> 29)
+    stats['offline_huge_mib_hashed_by_reference'] = sum(f[4] >> 20 for _, f in huge)
+    ctx.extra_cov['offline_huge_length_classes'] = sorted(huge_classes)
     stats['offline_aliased_results_compared'] = n_a
     ctx.extra_cov['offline_counts'] = {k: v for k, v in stats.items() if k.startswith('offline_')}
     ctx.extra_cov['offline_checker'] = 'vlib/sha_ref.py: hashlib.sha256 / hmac.new(..., sha256); reference self-checked against %d published vectors (FIPS 180-4 examples, RFC 4231)' % len(VECTORS)
